@@ -12,8 +12,8 @@ import (
 
 func init() {
 	register(&core.Property{
-		ID:    "C09",
-		Title: "Cross-namespace isolation: foreign Secrets/Services cannot influence a config",
+		ID:          "C09",
+		Title:       "Cross-namespace isolation: foreign Secrets/Services cannot influence a config",
 		Explanation: "Static decision of the permission mechanism: (1) the complete decision table of buildResourceName (new and legacy controller) equals `error iff a default namespace is given, the reference names another namespace and the kind's bit is off`; (2) each getter passes its own permission bit, and fetches and tracks exactly the namespace/name the resolver returned, on its nil-error edge; (3) at every call site in the converters the default namespace handed to a getter is the namespace of the object carrying the reference (or empty for operator-level configuration) and never derives from the reference value itself; (4) a namespace or name parsed out of an annotation value reaches a model lookup that can stand in for a checked read (Backends.FindBackend/AcquireBackend, Userlists.Find) only past a comparison with the reader's namespace whose `differs` edge is closed unless the matching permission bit is on; (5) the four bits are assigned from their own configuration keys, `allow` only, and the command-line override reaches the three secret bits only.",
 		NotDecided: []string{
 			"two-world non-interference on concrete clusters (equality of written configurations)",
